@@ -37,7 +37,7 @@ PROPS['C05'] = dict(
     floor=40,
     assumptions=['percussion = MIDI channel 10', 'polyphony bound: comparison only while at least 2 chip channels were idle at every note-on'],
     stages=[
-        dict(name='random', variant='asan', harness='c04_voices.cpp', quick=4000, thorough=80000, opts=dict(mode='c05', maxops=300)),
+        dict(name='random', variant='asan', harness='c04_voices.cpp', quick=15000, thorough=150000, opts=dict(mode='c05', maxops=300)),
         dict(name='exhaustive-d4', variant='asan', harness='c04_voices.cpp', quick=160000, thorough=160000, opts=dict(mode='c05', depth=4)),
         dict(name='exhaustive-d5', variant='asan', harness='c04_voices.cpp', quick=0, thorough=3200000, opts=dict(mode='c05', depth=5)),
     ],
@@ -56,7 +56,7 @@ PROPS['C06'] = dict(
     floor=60,
     assumptions=['time is advanced with opn2_generate at 8 kHz on the GENS/MAME cores: only the age counters matter'],
     stages=[
-        dict(name='random', variant='asan', harness='c04_voices.cpp', quick=2500, thorough=50000, opts=dict(mode='c06', maxops=300), budget=60),
-        dict(name='pressure', variant='asan', harness='c04_voices.cpp', quick=6000, thorough=120000, opts=dict(mode='c06', maxops=300, pressure=1), budget=60, **{'as': 'random'}),
+        dict(name='random', variant='asan', harness='c04_voices.cpp', quick=8000, thorough=100000, opts=dict(mode='c06', maxops=300), budget=60),
+        dict(name='pressure', variant='asan', harness='c04_voices.cpp', quick=15000, thorough=200000, opts=dict(mode='c06', maxops=300, pressure=1), budget=60, **{'as': 'random'}),
     ],
 )
